@@ -43,6 +43,7 @@ def jobs(tier, seed):
         for v in ("v1", "v2", "v3"):
             if v in rt.variables_of(d):
                 add(d, ["fwd_early", "diff_comp_at_early", "fwd_after_asexp", "diff_at_early"], var=v)
+                add(d, ["fwd", "diff_comp_at", "diff_comp"], var=v)
     for d in [["Add", fam.X, ["Reciprocal", fam.Y]], ["Add", fam.X, ["Logarithm", ["const", -1]]], ["Add", ["Multiply", ["const", 2], fam.X], ["Divide", ["const", 0], ["Logarithm", fam.X]]],
               ["Minus", ["Multiply", ["const", 3], fam.X], ["NthRoot", fam.Y, 2]]]:
         add(d, ["fwd_early", "diff_comp_at_early", "fwd_after_asexp", "deriv_early"] if len(rt.variables_of(d)) <= 1 else ["fwd_early", "diff_comp_at_early", "fwd_after_asexp"], var="x")
@@ -61,6 +62,11 @@ def jobs(tier, seed):
             add(d, ["deriv", "deriv_early"], var=(vs or ["x"])[0], supplied=vs)
     for d in fam.f1_shared(tier):
         add(d, LATE[:2] + EARLY[:1], var="x")
+    # one long-lived early object queried at another point first (its own domain check must not rely on leftovers)
+    for d in [["Logarithm", fam.X], ["Power", fam.X, ["const", 2]], ["Add", fam.X, ["Logarithm", fam.Y]], ["Logarithm", ["Multiply", fam.X, fam.Y]],
+              ["Divide", fam.X, ["Minus", fam.Y, ["const", 1]]]]:
+        js.append({"mode": "route", "d": d, "routes": ["eval", "fwd_early"], "var": "x", "reuse_seq": [["obj", "q"]]})
+        js.append({"mode": "route", "d": d, "routes": ["eval", "diff_comp_at_early"], "var": "x", "reuse_seq": [["obj", "q"], ["obj", "q"]]})
     for d in [["NthRoot", ["NthPower", fam.X, 4], 16], ["NthRoot", ["NthRoot", ["NthPower", fam.X, 2], 2], 2]]:
         add(d, LATE[:2] + EARLY[:2], var="x")          # inside the region of known finding D3 (the early routes inherit the mis-simplified derivative)
     f2 = fam.f2_quick(6, 4) if tier == "quick" else fam.f2("thorough")
